@@ -88,6 +88,27 @@ Proof.
   destruct (m_att m); try congruence; rewrite Nat.eqb_refl; reflexivity.
 Qed.
 
+(* the decision on an incoming message is a function of the message alone: no
+   tracker state (earlier deliveries, epoch, pending slots) enters it *)
+Lemma accept_stateless c t m :
+  reader c (PRecv (Some m)) t =
+  match check_recv (peer_key c) m with
+  | Ok _ => Ok (h_recv m t)
+  | Err k => Err k
+  | Panic => Panic
+  end.
+Proof. cbn [reader]. unfold obind. destruct (check_recv (peer_key c) m); reflexivity. Qed.
+
+Lemma accept_stateless_step c s s' cn cn' m :
+  conn s = Some cn -> c_rerr cn = None -> conn s' = Some cn' -> c_rerr cn' = None ->
+  (exists k, step c s (AResp (PRecv (Some m))) = Some (set_conn (Some (mkConn (c_w cn) (Some k))) s, [OBad k])) <->
+  (exists k, step c s' (AResp (PRecv (Some m))) = Some (set_conn (Some (mkConn (c_w cn') (Some k))) s', [OBad k])).
+Proof.
+  intros H1 H2 H3 H4. cbn [step]. rewrite H1, H2, H3, H4, !accept_stateless.
+  destruct (check_recv (peer_key c) m) as [[]|k|]; split; intros [k' E]; try discriminate;
+    inversion E; subst; eexists; reflexivity.
+Qed.
+
 (* a well-formed attached key never influences the decision *)
 Lemma attached_key_ignored p m k :
   check_recv p (with_att (AttKey k) m) = check_recv p (with_att AttNone m).
